@@ -31,7 +31,7 @@ def parse_scheds(out):
     for chunk in re.split(r'<<\s*"SCHED"\s*,', out)[1:]:
         txt = chunk.replace('<<', '[').replace('>>', ']').replace('TRUE', 'true').replace('FALSE', 'false')
         h, _ = dec.raw_decode(txt.lstrip())
-        if any(x[0] in ('start', 'end') for x in h):
+        if any(x[0] in ('start', 'end', 'hookstart') for x in h):
             seen[json.dumps(h)] = h
     return [seen[k] for k in sorted(seen)]
 
@@ -44,6 +44,7 @@ def born(h):
             t = x[1]
         elif x[0] == 'start':
             res[x[1]] = t
+        # (a thread a layer hook started between two tests is born in none)
     return res
 
 
@@ -93,7 +94,32 @@ def schedules(chk, tier, rng, runs):
     pickx = rng.sample(xadopt, min(len(xadopt), nx // 3))
     pickx += rng.sample(xrename, min(len(xrename), nx // 3))
     pickx += rng.sample(xrest, min(len(xrest), nx - len(pickx)))
-    return pick, pickx
+    # ... a per-test layer hook (testSetUp) starts a thread between two tests
+    resh = runs['Threads_sched_hook']
+    chk.add_tlc('Threads_sched_hook (schedule export: threads started by the testSetUp hook of a test)', resh)
+    allk = [h for h in parse_scheds(resh.out) if any(x[0] == 'hookstart' for x in h)]
+    if 'Threads_sched_sim' in runs:
+        allk += [h for h in allx if any(x[0] == 'hookstart' for x in h)]
+    if not allk:
+        chk.machinery('TLC exported no schedule with a thread started by a layer hook')
+    chk.extra['schedules_with_threads_started_by_a_layer_hook'] = len(allk)
+    nk = 45 if tier == 'quick' else 600
+    later = [h for h in allk if hook_after_a_test(h)]
+    first = [h for h in allk if not hook_after_a_test(h)]
+    pickk = rng.sample(later, min(len(later), nk * 3 // 4))
+    pickk += rng.sample(first, min(len(first), nk - len(pickk)))
+    return pick, pickx, pickk
+
+
+def hook_after_a_test(h):
+    """is a thread started by the hook of a test that is not the first"""
+    t = 0
+    for x in h:
+        if x[0] == 'test':
+            t = x[1]
+        elif x[0] == 'hookstart' and t >= 1:
+            return True
+    return False
 
 
 def counterexample_hist(out):
@@ -124,13 +150,14 @@ def make_case(cid, h, rng, mode='base'):
     adopted = set(x[1] for x in h if x[0] == 'adopt')
     tests = {}
     pre = []
+    by_hook = []
     attrs = {}
     cur = None
     for x in h:
         if x[0] == 'test':
             cur = 't%d' % x[1]
             tests[cur] = {'body': []}
-        elif x[0] == 'start':
+        elif x[0] in ('start', 'hookstart'):
             th, g = 'th%d' % x[1], x[2]
             if mode == 'base':
                 api = rng.choice(['threading', 'threading', '_thread', '_thread_ct'])
@@ -147,6 +174,10 @@ def make_case(cid, h, rng, mode='base'):
                 if nm is not None:
                     a['tname'] = nm
             attrs[th] = a
+            if x[0] == 'hookstart':
+                # by the layer's testSetUp hook, at its first call after test cur
+                by_hook.append(dict(a, after=cur or ''))
+                continue
             # before the first test: started while the test module is imported
             (tests[cur]['body'] if cur else pre).append(a)
         elif x[0] == 'end':
@@ -183,6 +214,8 @@ def make_case(cid, h, rng, mode='base'):
              'classes': {'TA': {'tests': sorted(tests), 'layer': 'L1'}}, 'tests': tests}
     if pre:
         world['pre_threads'] = pre
+    if by_hook:
+        world['layers']['L1']['hook_threads'] = by_hook
     args = []
     for p in pats:
         args += ['--ignore-new-thread', p]
@@ -203,17 +236,18 @@ def record(case, res):
         elif e['e'] == 'ThreadStart':
             ign = any(re.match(p, e['name']) for p in case['pats'])
             ev.append({'e': 'S', 't': e['t'], 'th': e['thread'], 'ident': str(e['ident']), 'ign': ign,
-                       'api': 'threading' if e['api'] == 'threading' else 'lowlevel'})
+                       'api': 'threading' if e['api'] == 'threading' else 'lowlevel',
+                       'hook': bool(e.get('hook'))})
         elif e['e'] == 'ThreadName':
             # the thread is seen under another name from now on
             if e.get('error'):
                 harness_err = 'thread %s could not %s: %s' % (e['thread'], e['how'], e['error'])
             ign = any(re.match(p, e['name']) for p in case['pats'])
             ev.append({'e': 'N', 't': e['t'], 'th': e['thread'], 'ident': str(e['ident']), 'ign': ign,
-                       'api': ''})
+                       'api': '', 'hook': False})
         elif e['e'] == 'ThreadEnd':
             ev.append({'e': 'E', 't': e['t'], 'th': e['thread'], 'ident': str(e['ident']), 'ign': False,
-                       'api': ''})
+                       'api': '', 'hook': False})
     # decorator-skipped tests take their place in the (sorted) execution order
     order = [t for t in sorted(w['tests']) if t in order or w['tests'][t].get('deco') == 'skip']
     rep = {t: [] for t in order}
@@ -275,9 +309,10 @@ def run_cases(chk, cases, label):
         'runs_in_which_the_os_reused_an_ident', 0) + reuse
 
 
-DESIGN_CFGS = ('Threads_design', 'Threads_threading')
+DESIGN_CFGS = ('Threads_design', 'Threads_threading', 'Threads_hook')
 DEV_CFGS = ('Threads_asbuilt', 'Threads_dev_SnapshotKeepsEnded', 'Threads_probe',
             'Threads_dev_NoAliveCheck', 'Threads_dev_SnapshotAfterBody', 'Threads_dev_KeepSnapshot',
+            'Threads_dev_SnapshotFromPrevStop',
             'Threads_dev_ProxyEqName', 'Threads_dev_OnePerName')
 
 
@@ -287,11 +322,12 @@ def tlc_runs(tier, seed):
     # one worker: the same (shortest) counterexample every time
     todo += [(c, dict(workers=1, timeout=600)) for c in DEV_CFGS]
     todo += [('Threads_sched_base', dict(workers=1, timeout=900)),
-             ('Threads_sched', dict(workers=1, timeout=900))]
+             ('Threads_sched', dict(workers=1, timeout=900)),
+             ('Threads_sched_hook', dict(workers=1, timeout=900))]
     if tier != 'quick':
         todo.append(('Threads_sched_sim', dict(workers=1, timeout=1800, simulate='num=4000', depth=60,
                                                seed=seed + 1)))
-    with ThreadPoolExecutor(max_workers=7) as ex:
+    with ThreadPoolExecutor(max_workers=8) as ex:
         futs = {c: ex.submit(tlc.run, 'Threads', c, **kw) for c, kw in todo}
         return {c: f.result() for c, f in futs.items()}
 
@@ -306,11 +342,16 @@ def run(chk, tier, seed, replay=None):
                 'don\'t-care zone for a thread whose name changed its ignore class inside the test '
                 'that started it) holds when idents are never reused, and with reuse for threading '
                 'threads; with reuse and low-level threads (asbuilt) TLC produces the hidden-leak '
-                'counterexample; six deviation configs (among them ProxyEqName: proxy equality looks '
-                'at the name; OnePerName) and the reuse probe give counterexamples. (2) spec -> code: '
+                'counterexample; Threads_hook: the same with threads started by a per-test layer hook '
+                '(testSetUp, called by startTest before the snapshot is taken) between two tests - '
+                'they exist before the test and are never reportable; seven deviation configs (among '
+                'them ProxyEqName: proxy equality looks at the name; OnePerName; SnapshotFromPrevStop: '
+                'the threads found at the previous stopTest reused as the next snapshot) and the '
+                'reuse probe give counterexamples. (2) spec -> code: '
                 'the schedules TLC enumerates (hist at terminal states; base: 3 tests x 3 threads; '
                 'extended: threads older than the first test, adopt and rename steps, API chosen by '
-                'TLC) and the counterexamples of the deviation configs are executed by scripted '
+                'TLC; hook: threads started by the layer\'s testSetUp hook of the first or a later '
+                'test) and the counterexamples of the deviation configs are executed by scripted '
                 'tests on the real runner (threading and _thread APIs, _thread threads that touch '
                 'threading at once or when told, renames by the test or by the thread itself, named '
                 '/ unnamed / equal names / names matching or nearly matching the '
@@ -342,9 +383,10 @@ def run(chk, tier, seed, replay=None):
             chk.machinery('%s: no hist in the counterexample' % cfg)
         else:
             cex.append((cfg, h))
-    hs, hx = schedules(chk, tier, rng, runs)
+    hs, hx, hk = schedules(chk, tier, rng, runs)
     cases = [make_case('h%d' % n, h, rng) for n, h in enumerate(hs)]
     cases += [make_case('x%d' % n, h, rng, 'x') for n, h in enumerate(hx)]
+    cases += [make_case('k%d' % n, h, rng, 'x') for n, h in enumerate(hk)]
     # what the model says a deviating runner would get wrong, tried on the runner
     # (each counterexample as it is, and with Python's variations)
     for cfg, h in cex:
